@@ -169,7 +169,8 @@ var vRangeOps = []string{"", "=", "<", "<=", ">", ">=", "between", "begins_with"
 
 // vNewRead draws a request shape (forked) with symbolic operand values. With parameter shapes=1 the
 // full product index x (scan | 8 sort-key conditions x 2 directions) x 3 filters is explored; with
-// shapes=0 a list of 13 representative combinations (each on the base table and on the index).
+// shapes=2 a list of 13 representative combinations, with shapes=0 eight of them (each on the base table
+// and on the index).
 func vNewRead(cap int) vRead {
 	r := vRead{forward: true}
 	r.index = nd.Choice("rd.index", 2) == 1
@@ -193,6 +194,10 @@ func vNewRead(cap int) vRead {
 			{false, "", true, 0}, {false, "", false, 1},
 			{false, "=", true, 0}, {false, "<", true, 0}, {false, "<=", true, 0}, {false, ">", true, 0}, {false, ">=", true, 0},
 			{false, "between", false, 0}, {false, "begins_with", true, 0}, {false, "<", false, 2},
+		}
+		if nd.Param("shapes", 0) == 0 {
+			// the quick tier's eight shapes
+			shapes = []shape{shapes[0], shapes[1], shapes[3], shapes[4], shapes[6], shapes[9], shapes[10], shapes[11]}
 		}
 		sh := shapes[nd.Choice("rd.shape", len(shapes))]
 		r.scan, r.rangeOp, r.forward, filter = sh.scan, sh.op, sh.forward, sh.filter
